@@ -128,9 +128,11 @@ def run_shards(jobs, nproc=None):
     if nproc <= 1 or len(jobs) <= 1:
         res = [_shard_entry(j) for j in jobs]
     else:
+        # (non-daemonic workers: some checks start processes of their own)
+        from concurrent.futures import ProcessPoolExecutor
         ctx = multiprocessing.get_context("fork")
-        with ctx.Pool(min(nproc, len(jobs))) as pool:
-            res = pool.map(_shard_entry, jobs, chunksize=1)
+        with ProcessPoolExecutor(max_workers=min(nproc, len(jobs)), mp_context=ctx) as pool:
+            res = list(pool.map(_shard_entry, jobs, chunksize=1))
     out = []
     for tag, r in res:
         if tag == "err":
